@@ -661,6 +661,51 @@ class C10(Prop):
             obs(j, ("extent", "own"))
         return {"kind": "heap", "steps": steps}
 
+    def gen_srr_cfg(self, rng):
+        """offset denominators with a large least common multiple (pairs of coprime denominators around 2^15.5, 2^16, 2^20,
+        2^31 - the lcm then approaches what int64 holds -, a single denominator >= 2^31), small layer counts"""
+        M = rng.choice([1, 1, 2, 3, 4])
+        spotsize, speed, scantime = int_mag_triple(rng, M)
+
+        def near(b):  # an odd number near 2^b and its odd neighbour: coprime
+            n = (int(2 ** b) + rng.randint(-40000, 40000)) | 1
+            return max(3, n), max(3, n) + 2
+
+        t = rng.random()
+        if t < 0.2:
+            dens = list(near(15.5))
+        elif t < 0.45:
+            dens = list(near(16))
+        elif t < 0.6:
+            dens = list(near(20))
+        elif t < 0.7:
+            dens = list(near(rng.choice([25, 28, 30])))
+        elif t < 0.8:
+            dens = list(near(31))  # the lcm is about 2^62
+        elif t < 0.9:
+            dens = [rng.choice([2 ** 31, 2 ** 31 + 11, 2 ** 32 + 15, 2 ** 40 + 1, 2 ** 52 + 3, 2 ** 62 + 1, rng.randint(2 ** 31, 2 ** 62)])]
+        else:
+            dens = list(near(rng.choice([15.5, 16]))) + [rng.choice([3, 5, 7, 2 ** 10 + 1])]
+        if len(dens) > 1 and rng.random() < 0.3:
+            dens.append(rng.choice([3, 5, dens[0]]))
+        size = math.lcm(*dens)
+        pairs = []
+        for d in dens:
+            u = rng.random()
+            if u < 0.35:
+                o = 0
+            elif u < 0.7:
+                o = rng.randint(1, 9)
+            elif u < 0.9:  # the largest offset the setter of the restored table still multiplies inside int64
+                o = max(0, min(d - 1, (2 ** 63 - 1) // size * d // size))
+            else:
+                o = rng.randint(0, 2 * d)
+            pairs.append([o, d])
+        w = rng.choice([0, 0, 1, 3])
+        l0, l1 = rng.randint(1, 3), rng.randint(1, 3)
+        return {"kind": "srr_cfg", "spotsize": spotsize, "speed": speed, "scantime": scantime, "warmup": w * scantime, "pairs": pairs,
+                "mag": M, "n": rng.choice([2, 2, 3]), "shapes": [[l0, w + l1 * M + rng.choice([0, 1])], [l1, w + l0 * M + rng.choice([0, 2])]]}
+
     def gen_srr_hist(self, rng):
         base = gen_srr(rng, max_vox=6000)
         M, n = base["mag"], base["n"]
@@ -831,8 +876,10 @@ class C10(Prop):
             return self.gen_hist(rng, tier)
         if t < 0.26:
             return self.gen_heap(rng, tier)
-        if t < 0.33:
+        if t < 0.31:
             return self.gen_srr_hist(rng)
+        if t < 0.34:
+            return self.gen_srr_cfg(rng)
         if t < 0.49:
             return {"kind": "srr", **gen_srr(rng, max_vox=6000), "roundtrip": rng.random() < 0.3,
                     "order": rng.choice(["extent-first", "get-first"]), "how": rng.choice(["get", "get", "element", "flat"])}
@@ -1026,6 +1073,12 @@ class C10(Prop):
             yield {"kind": "get", "cfg": c_, "rows": 3, "cols": 2, "nel": 1, "element": 0, "rect": [0, 3, 0, 2], "modes": ["mul"] * 4}
         base = {"spotsize": 70.0, "speed": 140.0, "scantime": 0.25, "warmup": 0.5, "pairs": [[0, 2], [1, 2]],
                 "mag": 2, "n": 2, "shapes": [[2, 12], [3, 10]], "short": None, "wmode": "exact"}
+        # SRR configuration only: offset denominators whose least common multiple does not fit 31 / 32 bits (seeded C10-d2)
+        for pairs_ in ([[0, 65537], [1, 65539]], [[0, 46349], [5, 46351], [2, 3]], [[0, 1009], [1, 1013]], [[3, 2 ** 31 + 11]],
+                       [[0, 2 ** 31 - 1], [0, 2 ** 31 + 11]], [[7, 2 ** 40 + 1]], [[0, 46349], [5, 46351], [7, 3]], [[0, 2147483647], [1, 2147483659]]):
+            for m_, sp_ in ((1, 35.0), (2, 70.0)):
+                yield {"kind": "srr_cfg", "spotsize": sp_, "speed": 140.0, "scantime": 0.25, "warmup": 0.25, "pairs": pairs_, "mag": m_, "n": 2,
+                       "shapes": [[2, 1 + 3 * m_], [3, 1 + 2 * m_ + 1]]}
         # SRR: two lasers sharing the configuration; attributes one by one; layers replaced; reconstruction read first
         yield {"kind": "srr_hist", **base, "second": {"shapes": [[1, 12], [4, 8]], "n": 3}, "steps": [
             {"change": None, "order": "get-first", "on": 0}, {"change": None, "order": "get-first", "on": 1},
@@ -1334,7 +1387,7 @@ class C10(Prop):
             except Exception as e:  # the property speaks of the reconstructed array; success is C09's claim
                 return None, {"raises": type(e).__name__, "msg": str(e)[:200]}
 
-        first = reconstruct() if order == "get-first" else None
+        first = reconstruct() if (order == "get-first" and how != "none") else None
         ext = [float(v) for v in laser.extent]
         px, py = float(laser.config.get_pixel_width()), float(laser.config.get_pixel_height())
         rep = ctx.driver.call("c10.srr", cfg=srr_cfg_json(cur), shapes=shapes, observed=[rat(v) for v in ext + [px, py]])
@@ -1353,7 +1406,12 @@ class C10(Prop):
                   "srr: reconstruction read " + ("before" if order == "get-first" else "after") + " the extent", "srr: read by " + how}
         if noffs > len(shapes) and rep["offs"] and max(rep["offs"]) > max(rep["offs"][:len(shapes)]):
             feats.add("srr: the largest offset belongs to no layer")
-        rshape, err = first if first is not None else reconstruct()
+        if how == "none":  # configuration-only case: the demanded shape stands in for the array that is not built
+            if rep["valid"] is not True or rep["spec_shape"] is None:
+                return {"not accepted": True}, None, None, True
+            rshape, err = rep["spec_shape"], None
+        else:
+            rshape, err = first if first is not None else reconstruct()
         if rshape is None:
             return err, None, None, True
         if rep["observed_ratio"] is None:
@@ -1384,6 +1442,21 @@ class C10(Prop):
                                                   and fclose(py, unrat(rep["model_py"]))) if rep["model_extent"] is not None else None
         model["extent_px_agree_with_model"] = True if rep["model_extent"] is not None else None
         spec["extent_px_agree_with_model"] = impl["extent_px_agree_with_model"]
+        if how == "none":  # the integers of the configuration, exactly: sub-pixels per pixel and the offsets table of the getter
+            # (shapes beyond 2^53: a float ratio cannot name the integer; it must be within RATIO_REL of the demanded one)
+            def snap(q, k):
+                return k if abs(q - k) <= Fraction(RATIO_REL) * max(1, k) else float(q)
+
+            if rep["observed_ratio"] is not None:
+                impl["cols_from_extent"], impl["rows_from_extent"] = snap(rx, want[1]), snap(ry, want[0])
+            if rep["model_ratio"] is not None and rep["model_shape"] is not None and rep["valid"] is True:
+                model["cols_from_extent"], model["rows_from_extent"] = snap(mr[0], want[1]), snap(mr[1], want[0])
+            conf = laser.config
+            impl["spp"] = int(conf.subpixels_per_pixel)
+            impl["table"] = [[int(a), int(b)] for a, b in np.asarray(conf.subpixel_offsets).tolist()]
+            model["spp"] = spec["spp"] = rep["spp"]
+            model["table"] = spec["table"] = rep["config"]["subpixel_offsets"]
+            spec["extent_px_agree_with_model"] = True if rep["model_extent"] is not None else None  # here the model's values ARE demanded
         return impl, model, spec, False
 
     def eval_srr(self, case, ctx):
@@ -1737,6 +1810,64 @@ class C10(Prop):
             feats = set()
         return outcome(impl, model, spec, spec_ok=spec_ok, model_ok=model_ok, undetermined=undet, hyp=hyp, features=feats)
 
+    INT64 = 2 ** 63
+
+    def int64_exact(self, case):
+        """does every integer the unchanged code computes for this offsets list fit in int64?  (np.lcm.reduce of the
+        denominators, offset * size in the setter - also when the setter runs again on the [offset', size] table that
+        from_array hands back -, lcm(size, magnification))"""
+        size = math.lcm(*[d for _, d in case["pairs"]])
+        if size >= self.INT64 or size * case["mag"] >= self.INT64:
+            return False
+        for o, d in case["pairs"]:
+            o2 = o * size // d
+            if o * size >= self.INT64 or o2 * size >= self.INT64:
+                return False
+        return True
+
+    def eval_srr_cfg(self, case, ctx):
+        """configuration-only: an SRRConfig whose offset denominators have a LARGE least common multiple, on a tiny stack
+        that is never reconstructed: sub-pixels per pixel, offsets table, pixel sizes and extent of the configuration as made
+        and as restored by from_array(to_array()), against Lean's setters (integers of any size) - exactly for the integers,
+        1e-12 / 1e-9 relative for the float values.  Lists whose integers leave int64 in the unchanged code are recorded only."""
+        from pewlib.srr.config import SRRConfig
+        from pewlib.srr.srr import SRRLaser
+
+        shapes = stack_shapes(case)
+        exact = self.int64_exact(case)
+        size = math.lcm(*[d for _, d in case["pairs"]])
+        feats = {"srr-config-only", "lcm of the denominators " + (">= 2^62" if size >= 2 ** 62 else ">= 2^40" if size >= 2 ** 40 else
+                                                                 ">= 2^32" if size >= 2 ** 32 else ">= 2^31" if size >= 2 ** 31 else "< 2^31"),
+                 "one denominator" if len(case["pairs"]) == 1 else f"{len(case['pairs'])} denominators"}
+        if any(d >= 2 ** 31 for _, d in case["pairs"]):
+            feats.add("a single denominator >= 2^31")
+        impl, model, spec = [], [], []
+        ok = 0
+        try:
+            made = make_srr_cfg(case)
+            both = [("as made", made), ("after the array round trip", SRRConfig.from_array(made.to_array()))]
+            for tag, conf in both:
+                laser = SRRLaser(self.srr_layers(shapes), config=conf)
+                f2 = set()
+                i, m, s_, raised = self.observe_srr(laser, case, shapes, ctx, f2, "extent-first", "none")
+                feats |= {f for f in f2 if not f.startswith("srr: read") and not f.startswith("srr: reconstruction")}
+                if raised:
+                    i = m = s_ = {"not compared": i}
+                else:
+                    ok += 1
+                impl.append({tag: i}); model.append({tag: m}); spec.append({tag: s_})
+        except core.InternalError:
+            raise
+        except Exception as e:
+            if exact:
+                raise
+            impl = model = spec = [{"raises": type(e).__name__}]
+        if not exact:  # an integer of the unchanged code leaves int64 (silent wrap in NumPy): outside what it handles, recorded
+            feats.add("integers beyond int64 in the unchanged code: " + ("as the model" if canon_eq(impl, spec) else "differs from the model") + " (recorded only)")
+            return outcome(impl, model, spec, spec_ok=True, model_ok=True, undetermined=True, features=feats)
+        feats.add("every integer fits int64: judged exactly")
+        return outcome(impl, model, spec, undetermined=(ok == 0), features=feats)
+
     def eval_srr_hist(self, case, ctx):
         """a history on ONE SRRLaser object (and, with "second", another SRRLaser that is given the SAME configuration
         object): configuration edited in place (offsets, warm-up, spot size / speed / scan time, one by one in any order),
@@ -1905,6 +2036,8 @@ class C10(Prop):
             return self.eval_srr_hist(case, ctx)
         if k == "heap":
             return self.eval_heap(case, ctx)
+        if k == "srr_cfg":
+            return self.eval_srr_cfg(case, ctx)
         raise core.InternalError(f"unknown case kind {k}")
 
     def shrink(self, case):
@@ -1979,6 +2112,15 @@ class C10(Prop):
                 yield {k_: v for k_, v in case.items() if k_ != "second"}
             if case["n"] > 2:
                 yield {**case, "n": case["n"] - 1}
+        elif k == "srr_cfg":
+            if len(case["pairs"]) > 1:
+                for i in range(len(case["pairs"])):
+                    yield {**case, "pairs": case["pairs"][:i] + case["pairs"][i + 1:]}
+            for i, (o, d) in enumerate(case["pairs"]):
+                if o > 1:
+                    yield {**case, "pairs": case["pairs"][:i] + [[o // 2, d]] + case["pairs"][i + 1:]}
+            if case["n"] > 2:
+                yield {**case, "n": 2}
         elif k == "srr":
             if case["n"] > 2:
                 yield {**case, "n": case["n"] - 1}
